@@ -14,7 +14,7 @@ from bibtexparser.model import (
     String,
 )
 
-from .. import engine
+from .. import bigdocs, engine
 from ..canon import canon
 
 ID = "C19"
@@ -246,6 +246,7 @@ ALLOPS = MUT + READS
 def shards(tier):
     out = [("hist", init, i) for init in range(len(PARSED) + 1) for i in range(len(ALLOPS))]
     out += [("eq", i) for i in range(len(EQ_DOCS))]
+    out += [("bigeq", n) for n in (bigdocs.SIZES_QUICK if tier == "quick" else bigdocs.SIZES_THOROUGH)]
     return out
 
 
@@ -272,8 +273,58 @@ def run_shard(shard, tier, acc):
         acc.case()
         if ok:
             rec([init, list(op1)], 1)
+    elif shard[0] == "bigeq":
+        big_equality(shard[1], acc)
     else:
         equality_shard(shard[1], acc)
+
+
+def big_equality(n, acc):
+    """Structurally equal blocks that were built independently (two parses of one document) compare equal, on every
+    line of a long document; a copy compares equal; a copy moved by one line does not."""
+    text, _ = bigdocs.document(n, 1)
+    for stack in ("default", "none"):
+        kw = {} if stack == "default" else {"parse_stack": []}
+        a = bibtexparser.parse_string(text, **kw).blocks
+        b = bibtexparser.parse_string(text, **kw).blocks
+        for i, (x, y) in enumerate(zip(a, b)):
+            if isinstance(x, ParsingFailedBlock):
+                continue
+            acc.trace()
+            acc.case(nontrivial_key=("bigeq", n, stack, i))
+            case = {"big_equality": n, "stack": stack, "block": i, "start_line": x.start_line}
+            objs = [(x, y)] + ([(f, g) for f, g in zip(x.fields, y.fields)] if isinstance(x, Entry) else [])
+            for p, q in objs:
+                r = eq_both(p, q)
+                acc.step(("bigobj", n, stack, i), "independent-parse", ("eq", r))
+                if r != (True, True, False, False):
+                    acc.violation(
+                        {"oracle": "equal_content_compares_equal", "class": type(p).__name__, "how": "independent parse"},
+                        {"case": case, "observed": r, "expected": "== both ways"},
+                        size=n,
+                    )
+                    return
+                c = copy.deepcopy(p)
+                _ = getattr(c, "parser_metadata", None)  # reading an accessor must not change equality
+                _ = getattr(c, "fields_dict", None)
+                r = eq_both(p, c)
+                if r != (True, True, False, False):
+                    acc.violation(
+                        {"oracle": "copies_compare_equal", "class": type(p).__name__, "how": "deepcopy+read accessors"},
+                        {"case": case, "observed": r, "expected": "== both ways"},
+                        size=n,
+                    )
+                    return
+                if isinstance(p, Block):
+                    c._start_line_in_file = (p.start_line or 0) + 1
+                    r = eq_both(p, c)
+                    if r != (False, False, True, True):
+                        acc.violation(
+                            {"oracle": "perturbed_compare_unequal", "class": type(p).__name__, "attribute": "_start_line_in_file", "kind": "value"},
+                            {"case": case, "observed": r, "expected": "!= both ways"},
+                            size=n,
+                        )
+                        return
 
 
 # -- (b) structural equality ----------------------------------------------------------------------------
